@@ -91,6 +91,10 @@ static inline int cxx2c_vfop2 (int *a, int *b) { return __CPROVER_uninterpreted_
 static inline int cxx2c_vfop1 (int *a) { return __CPROVER_uninterpreted_vfop1 (*a); }
 #define VFOP2(a, b) __CPROVER_uninterpreted_vfop2 (a, b)
 #define VFOP1(a) __CPROVER_uninterpreted_vfop1 (a)
+/* in-place element operation  a = vop (a, b)  (operator+= and friends) */
+int __CPROVER_uninterpreted_vfvop (int, int);
+static inline void cxx2c_vfvop (int *a, int *b) { *a = __CPROVER_uninterpreted_vfvop (*a, *b); }
+#define VFVOP(a, b) __CPROVER_uninterpreted_vfvop (a, b)
 #endif
 
 /* ---- arithmetic on floating element types: the one place its meaning is chosen ---- */
